@@ -157,8 +157,8 @@ def run(ctx):
     ctx.sample({'pair': [canonical(pairs[0][0]), canonical(pairs[0][1])]})
     ctx.sample({'completeness': [comp[0][0], canonical(comp[0][1]), canonical(comp[0][2]), canonical(comp[0][3])]})
     # the same pairs on categories that live for one call only
-    rec = [(c[3][0], c[3][1], c[2]) for c in cases if c[0] == 'en_bin' and isinstance(c[3], list) and len(c[3]) == 2
-           and all(isinstance(t, str) for t in c[3][:2]) and c[2].startswith('ok')]
+    rec = [(c[3][0], c[3][1], c[2], sig(x), sig(y)) for (x, y), c in zip(pairs, cases)
+           if c[0] == 'en_bin' and isinstance(c[3], list) and len(c[3]) == 2 and c[2].startswith('ok')]
     fired = [r for r in rec if r[2] != 'ok 0']
     sample = rng.sample(fired, min(len(fired), 500)) + rng.sample(rec, min(len(rec), 300))
     ctx.extra['short_lived_calls'] = G.short_lived_suite(ctx, en.apply_binary_rules, sample, ctx.budget(4, 12))
